@@ -115,7 +115,7 @@ def refresher_bench(name, trefi=100, trp=2, trfc=3, postponing=1, tzqcs=None, zq
         bad("zqcs_not_recurring", zper > zqs + 1)
     covers = {}
     c1 = Signal()
-    top.comb += c1.eq(is_ref & (refs == 2 * postponing - 1 + (1 if postponing == 1 else 0)))
+    top.comb += c1.eq(is_ref & (refs == (2 * postponing - 1 + (1 if postponing == 1 else 0) if postponing <= 2 else postponing - 1)))
     covers["several_refresh_rounds"] = c1
     if tzqcs:
         c2 = Signal()
